@@ -952,3 +952,149 @@ class calc_pos:
 
     def on_raise(a, exc):
         yield "only-for-a-row-outside-the-layout", either(a.row < 0, a.row >= Q.seq_len(a.layout))
+
+
+# ---- StandardTextLayout.calculate_text_segments ('any' wrapping; clip / ellipsis handed to _calculate_trimmed_segments)
+
+from pyvc.text import chr_of, elem_eq  # noqa: E402
+
+STL2 = Obj(_tl.StandardTextLayout, {})
+LAYOUT2 = ListOf(ListOf(SEG))     # what calculate_text_segments builds: padding / end markers and runs (no inserted text)
+NL = 10
+
+
+def is_nl(text, k):
+    return elem_eq(text.get(k), chr_of(NL))
+
+
+def row_end(row):
+    """The text position after what a line accounts for: after its end marker (one hidden character), else the end
+    of its run."""
+    e0 = seg_at(row, 0)
+    one = ite(seg_is_run(e0), seg3_end(e0), val(seg3_offs(e0)) + 1)
+    if isinstance(n_segs(row), int):
+        return (val(seg3_offs(seg_at(row, 1))) + 1) if n_segs(row) == 2 else one
+    return ite(n_segs(row) == 2, val(seg3_offs(seg_at(row, 1))) + 1, one)
+
+
+def marker_ok(e, text, at=None):
+    """(0, o): the hint for one hidden character -- a newline, or the end of the text."""
+    o = val(seg3_offs(e))
+    n = tlen(text)
+    f = both(neg(seg_is_run(e)), seg_cols(e) == 0, seg_has_offs(e), 0 <= o, o <= n, implies(o < n, is_nl(text, o)))
+    return f if at is None else both(f, o == at)
+
+
+def run_in_width(e, text, width):
+    return both(seg_is_run(e), val(seg3_offs(e)) < seg3_end(e), run_ok(text, seg_cols(e), val(seg3_offs(e)), seg3_end(e)), seg_cols(e) <= width)
+
+
+def any_line_ok(row, text, width, prev):
+    """A line of 'any' wrapping that starts at text position `prev`:
+      * [(0, o)]: a line made solely of zero-width characters (prev .. o), its newline hidden;
+      * [(sc, prev, b), (0, b)]: the rest of the paragraph, it fits; the newline at b hidden;
+      * [(sc, prev, b)]: a full line: the next character (at b) no longer fits."""
+    n = tlen(text)
+    e0 = seg_at(row, 0)
+    ns = n_segs(row)
+    hint_only = both(ns == 1, marker_ok(e0, text), val(seg3_offs(e0)) >= prev, W(text, val(seg3_offs(e0))) == W(text, prev))
+    b = seg3_end(e0)
+    fits = both(ns == 2, run_in_width(e0, text, width), seg_cols(e0) > 0, val(seg3_offs(e0)) == prev, marker_ok(seg_at(row, 1), text, b))
+    full = both(ns == 1, run_in_width(e0, text, width), val(seg3_offs(e0)) == prev, b < n, seg_cols(e0) + (W(text, b + 1) - W(text, b)) > width)
+    return either(hint_only, fits, full)
+
+
+def _prev_end(segs, k):
+    return ite(k == 0, 0, row_end(_row(segs, k - 1))) if V.is_sym(k) else (0 if k == 0 else row_end(_row(segs, k - 1)))
+
+
+def _zero_run(row):
+    return both(n_segs(row) == 1, seg_is_run(seg_at(row, 0)), seg_cols(seg_at(row, 0)) == 0)
+
+
+TEXT_QF = Text("str", monotone_widths=False)   # no quantified monotonicity fact: instances of the lemma where needed (w_mono)
+
+
+def w_mono(text, a, b):
+    """Instance of lemma `columns-prefix-sum-monotone` for the width prefix sums of a text (character widths are
+    >= 0 by the width model): a <= b  =>  W(a) <= W(b)."""
+    cur().assume(implies(a <= b, W(text, a) <= W(text, b)))
+
+
+def _newline_has_no_width(st, self_obj, vals):
+    """wcwidth('\\n') is -1, which get_char_width clamps to 0: a fact about the width model's individual chr(10)
+    (checked against the real get_char_width by the static check below)."""
+    from pyvc.text import char_width
+    st.assume(char_width(chr_of(NL)) == 0)
+
+
+def _xc_newline_width():
+    from urwid.str_util import get_char_width
+    return ("newline-has-no-width", get_char_width("\n") == 0, f"get_char_width('\\n') == {get_char_width(chr(10))}")
+
+
+def _cts_inv(v):
+    segs, t, width, idx = v.segments, v.text, v.width, v.idx
+    n = tlen(t)
+    m = Q.seq_len(segs)
+    yield "idx-within-the-text-or-just-past-it", both(0 <= idx, idx <= n + 1)
+    if isinstance(segs.seq, tuple) and not segs.seq:
+        yield "idx-is-where-the-last-line-ends-or-the-start", idx == 0   # (the first disjunct below, for the empty list)
+        return
+    k = V.arbitrary("line")
+    # instances of the monotonicity lemma: from just after the first character of the last line to the positions the
+    # iteration that laid it out computed (when the invariant is re-established after that iteration)
+    first_of_last = _prev_end(segs, m - 1)
+    for name in ("nl_pos", "pos"):
+        if name in v and V.is_num(getattr(v, name)):
+            w_mono(t, first_of_last + 1, getattr(v, name))
+    yield "idx-is-where-the-last-line-ends-or-the-start", either(both(m == 0, idx == 0), both(m >= 1, row_end(_row(segs, m - 1)) == idx))
+    yield "every-line-so-far-continues-the-one-before-and-is-well-formed", implies(both(0 <= k, k < m), any_line_ok(_row(segs, k), t, width, _prev_end(segs, k)))
+    yield "a-run-of-no-columns-only-as-the-last-line-before-a-character-that-cannot-fit", both(
+        implies(both(0 <= k, k < m - 1), neg(_zero_run(_row(segs, k)))),
+        implies(both(m >= 1, _zero_run(_row(segs, m - 1))), both(idx < n, W(t, idx + 1) - W(t, idx) > width)))
+
+
+def _cts_ens(old, s, a, result, callee=False):
+    t, width = a.text, a.width
+    n = tlen(t)
+    m = Q.seq_len(result)
+    if not bool(a.wrap == "any"):   # (a normal exit with an unknown wrap mode: every paragraph fitted; nothing claimed)
+        return
+    yield "at-least-one-line", m >= 1
+    yield "the-lines-account-for-the-whole-text", row_end(_row(result, m - 1)) == n + 1
+    line_ok = lambda k: both(any_line_ok(_row(result, k), t, width, _prev_end(result, k)), neg(_zero_run(_row(result, k))))  # noqa: E731
+    if callee:
+        yield "every-line-continues-the-one-before-fits-the-width-and-is-filled", forall(0, m, line_ok, check_empty=False)
+    else:
+        k = V.arbitrary("line")
+        yield "every-line-continues-the-one-before-fits-the-width-and-is-filled", implies(both(0 <= k, k < m), line_ok(k))
+
+
+@contract(TL + "StandardTextLayout.calculate_text_segments", property="C03", replayable=False, alias="any-wrap")
+class calculate_text_segments_any:
+    """'any' wrapping, on the abstract text model (str).  ('space' wrapping -- the scan back to the last space, the
+    un-wrapping of the previous line -- stays with the bounded stand-in; 'clip' / 'ellipsis' are
+    _calculate_trimmed_segments.)  Registered under an alias: contracts/C03_layout.py holds the (assumed) model that
+    `layout` uses at its call site."""
+    self_shape = STL2
+    params = dict(text=TEXT_QF, width=Int, wrap=Atom("any", "bogus"))
+    setup = staticmethod(_newline_has_no_width)
+    result = LAYOUT2
+    raises = (_tl.CanNotDisplayText, ValueError)
+    modifies = ()
+    ensures = staticmethod(_cts_ens)
+    loops = {0: Loop(invariant=_cts_inv, decreases=lambda v: tlen(v.text) + 1 - v.idx, shapes={"segments": LAYOUT2})}
+    static_checks = [lambda: ("find-model-agrees-with-cpython", *__import__("pyvc.text", fromlist=["xcheck_find"]).xcheck_find()), _xc_newline_width]
+
+    def requires(s, a):
+        return a.width >= 0
+
+    def on_raise(old, s, a, exc):
+        if exc.cls is ValueError:
+            yield "value-error-only-for-an-unknown-wrap-mode", neg(a.wrap == "any")
+        else:
+            # witness: the function's idx at the raise
+            idx = cur().ghost.get("exit_locals", {}).get("idx")
+            t = a.text
+            yield "cannot-display-only-a-character-wider-than-the-width", False if idx is None else both(0 <= idx, idx < tlen(t), W(t, idx + 1) - W(t, idx) > a.width)
